@@ -28,14 +28,14 @@ type liveClient struct {
 }
 
 type liveOpts struct {
-	proto          string // netrpc | grpc | grpcmux
-	exitDelay      time.Duration
-	ignoreQuit     bool
-	noLine         bool
-	managed        bool
-	timeout        time.Duration
-	onExit         func()
-	preLine        func(r *scriptRunner)
+	proto            string // netrpc | grpc | grpcmux
+	exitDelay        time.Duration
+	ignoreQuit       bool
+	noLine           bool
+	managed          bool
+	timeout          time.Duration
+	onExit           func()
+	preLine          func(r *scriptRunner)
 	pStdout, pStderr io.Reader // what the plugin process writes to its stdout/stderr after serving begins
 	syncOut, syncErr io.Writer // ClientConfig.SyncStdout / SyncStderr
 	tlsAuto          bool
